@@ -143,3 +143,51 @@ def run(ctx, F, rule="E-CACHE.dm"):
             ctx.ob(rule, "%s:%s-try_lock" % (rule, nm), bool(trying) and not blocking,
                    "DMApplyCache::%s (%s) must use try_lock only (entries stay locked during gc): blocking=%s"
                    % (nm, F.where(fs[0]), blocking))
+    check_guard_construction(ctx, F, rule)
+
+def check_guard_construction(ctx, F, rule="E-CACHE.dm"):
+    """An `EntryGuard` unlocks its entry when dropped, so one may only come into existence where the entry's lock has
+    just been acquired: after `mutex.lock()` or on the success edge of `mutex.try_lock()`.  A guard that is built
+    unconditionally (e.g. as the eager argument of `bool::then_some`) and dropped on the failure path unlocks an entry
+    that another thread -- or the garbage collector between pre_gc and post_gc -- holds."""
+    n = 0
+    for fid, m in sorted(F.mir.items()):
+        if not fid.startswith("oxidd_cache::direct::"):
+            continue
+        B = cfg.Body(m)
+        sites = [i for i in sorted(B.reach) if not m["blocks"][i]["c"] and
+                 any((s.get("rv") or {}).get("k") == "aggr" and str(s["rv"].get("adt", "")).endswith("::EntryGuard")
+                     for s in m["blocks"][i]["s"])]
+        if not sites:
+            continue
+        calls = list(B.calls())
+        locks = [i for i, t in calls if re.search(r"::lock$", cfg.callee_name(t) or "")]
+        trys = [(i, t) for i, t in calls if (cfg.callee_name(t) or "").endswith("::try_lock")]
+        for s in sites:
+            n += 1
+            ok = any(B.dominates(l, s) for l in locks)
+            if not ok:
+                for ti, t in trys:
+                    d = t.get("d")
+                    # the switch on the try_lock result
+                    for si in sorted(B.reach):
+                        tt = m["blocks"][si]["t"]
+                        if tt.get("k") != "switch":
+                            continue
+                        dl = tt["d"].get("mv", tt["d"].get("cp"))
+                        if dl != d and not any(st.get("lhs") == dl and (st.get("rv") or {}).get("k") == "use" and
+                                               (st["rv"]["op"].get("cp", st["rv"]["op"].get("mv")) == d)
+                                               for st in m["blocks"][si]["s"]):
+                            continue
+                        false_succ = [blk for v, blk in tt["t"] if str(v) == "0"]
+                        true_succ = [tt["o"]] if false_succ else []
+                        if true_succ and all(B.dominates(ts, s) for ts in true_succ) and \
+                                not any(s in B.reachable_from(fs, avoid=(si,)) for fs in false_succ):
+                            ok = True
+            ctx.ob(rule, "%s:guard-after-lock:%s" % (rule, F.nice(fid)), ok,
+                   "%s (%s): %s" % (F.nice(fid), F.where(fid),
+                                    "the EntryGuard is created only after the entry's lock was acquired" if ok else
+                                    "an EntryGuard is constructed on a path on which the entry's lock was not acquired (not after "
+                                    "`lock()`, not on the success edge of `try_lock()`); dropping it unlocks an entry held by "
+                                    "someone else"))
+    return n
